@@ -568,9 +568,11 @@ def iteAux (cond : LinComb) : Nat → Val → Val → M Val
     match t with
     | .list ts =>
       match f with
-      | .list fs => do let rs ← zipWithM' (iteAux cond fuel) ts fs; pure (.list rs)
-      | .tuple fs => do let rs ← zipWithM' (iteAux cond fuel) ts fs; pure (.list rs)
-      | _ => tyErr
+      -- `if len(truev) != len(falsev): raise ValueError(…)` before anything is merged (repaired finding
+      -- C09-list-length-truncated: `zip` used to drop the extra elements silently)
+      | .list fs => if ts.length = fs.length then do let rs ← zipWithM' (iteAux cond fuel) ts fs; pure (.list rs) else raise .value
+      | .tuple fs => if ts.length = fs.length then do let rs ← zipWithM' (iteAux cond fuel) ts fs; pure (.list rs) else raise .value
+      | _ => tyErr                                   -- `len(falsev)` on a scalar
     | _ =>
       let f' ← (match t with
         | .fxp _ => do let y ← ensurefxp f; pure (Val.fxp y)
